@@ -1,5 +1,6 @@
 import json,sys
 pid=sys.argv[1]
+AVOID=json.load(open('/tmp/seed-out/avoid.json')).get(pid, [])
 for l in open('/verif/properties.jsonl'):
     p=json.loads(l)
     if p['id']==pid:
@@ -25,7 +26,7 @@ TASK: produce TWO independent source changes (variant A and variant B, different
   4. needs something SPECIFIC to manifest - a particular interleaving, a fault/error at a particular point, a multi-step sequence of operations, an unusual input, or two cooperating sites that each look fine alone - NOT something ordinary use would expose at once. Do not change tests. Do not just delete obviously essential code in a way every user would hit immediately.
 For each variant also write a DEMONSTRATION: a test or small program (e.g. an extra #[test] added in a separate file/patch, or a small bin/example crate under {out}/<variant>/demo that path-depends on {wt}) that FAILS (or hangs/crashes, with a timeout) with the change applied and PASSES without it. Some features (threads, start, allocator) only build into no-std binaries; see {wt}/test-runners for how such binaries are built if you need them; demonstrations for purely concurrent bugs may instead force the bad schedule deterministically (e.g. by calling the internal functions in the bad order from a unit test inside the crate) - explain what you did.
 
-DELIVERABLES, per variant V in {{A,B}}, in {out}/V/ :
+""" + ("The following mechanisms have ALREADY been used by others for this property - do NOT reuse them or close relatives, find genuinely different ones (different function, different clause of the property, different kind of mistake):\n" + "".join(f"  - {a}\n" for a in AVOID) + "\n" if AVOID else "") + f"""DELIVERABLES, per variant V in {{A,B}}, in {out}/V/ :
   - patch.diff : `git diff` of ONLY the library source change (apply-able with `git apply` on a clean checkout of the same commit)
   - demo.diff or demo/ : the demonstration (a diff adding a test, or a standalone crate/script), plus run.sh which runs the demonstration against WHATEVER STATE of the library is currently checked out in {wt} (it must not apply or revert patch.diff itself; if the demonstration is an added test it may apply demo.diff at the start and must remove it again at the end) and exits 0 when the property held and non-zero (or times out, use `timeout`) when it was violated
   - notes.md : what the change is, why it breaks the property, what it needs in order to manifest, the commands you ran and their results (tests pass with change; demo fails with change; demo passes without)
